@@ -24,6 +24,7 @@ EXPLANATION = (
     "override); the integer path prints picos / DAY and is taken exactly when picos >= DAY.checked_mul(multiple). "
     "Double-precision rounding of the quotient, exponent notation and panic-freedom over all u128 are value "
     "computations and are NOT claimed.")
+EXPLANATION += (' R18.5 (= R15.13) --bytes-format has no clap default: sizes keep the base configured through Divan::bytes_format.')
 NOT_DECIDED = ["double-precision rounding of the float path (the property itself allows it for sizes/throughputs), absence of exponent notation",
                "panic-freedom of formatting over all u128 / f64 values (picos * multiple can overflow for precisions far above the 4 divan uses)"]
 
